@@ -1044,6 +1044,9 @@ class Engine:
     def prove(self, cond, oid, info=None):
         """obligation: under the current path condition `cond` holds.  Never raises on
         failure; records a counterexample (model of inputs + UF applications)."""
+        only = getattr(self, "only", None)
+        if only and not any(oid.startswith(p) for p in only):
+            return True  # stated by the shared harness for another property: decided in that property's run
         o = self._ob(oid)
         if not self.feasible():
             self.stats.inc("vacuous")
